@@ -103,6 +103,45 @@ func init() {
 			ss := stmtStrings(ex, fd.Body)
 			ex.setBool("c07ReuseReadErrCloses", contains(ss, "if err != nil { c.closeWithErr(err) return }"), true, "reusableConn.readLoop: any read error (incl. an expired deadline) closes the connection")
 		}
+		// the reader's actions after it took a reply and the waiter's channel, in source order:
+		// 1 = a read-deadline call, 2 = setIdle, 3 = hand-over of the reply, 0 = anything else
+		if fd := ex.fn(rrel, "reusableConn", "readLoop"); fd != nil {
+			var loop *ast.ForStmt
+			for _, s := range fd.Body.List {
+				if f, ok := s.(*ast.ForStmt); ok && loop == nil {
+					loop = f
+				}
+			}
+			preamble := map[string]bool{
+				"resp, err := dnsutils.ReadRawMsgFromTCP(c.c)": true, "if err != nil { c.closeWithErr(err) return }": true,
+				"c.m.Lock()": true, "respChan := c.waitingResp": true, "c.waitingResp = nil": true, "c.m.Unlock()": true,
+				"if respChan == nil { pool.ReleaseBuf(resp) c.closeWithErr(errUnexpectedResp) return }": true,
+			}
+			if loop != nil && len(fd.Body.List) == 1 && loop.Cond == nil {
+				var codes []string
+				started := false
+				for _, s := range loop.Body.List {
+					str := ex.str(s)
+					code := "0"
+					switch {
+					case strings.Contains(str, "SetReadDeadline(") || strings.Contains(str, "SetDeadline("):
+						code = "1"
+					case strings.Contains(str, "setIdle("):
+						code = "2"
+					case strings.Contains(str, "respChan <- resp"):
+						code = "3"
+					case !started && preamble[str]:
+						continue
+					}
+					started = true
+					codes = append(codes, code)
+				}
+				ex.setRaw("c07ReuseReaderOrder", "List Nat", "["+strings.Join(codes, ", ")+"]",
+					"reusableConn.readLoop, after a reply and the waiter's channel were taken: 1 = read-deadline call (idle timeout), 2 = setIdle (the connection can be picked by the next caller), 3 = the reply is handed over, 0 = any other statement")
+			} else {
+				ex.setRaw("c07ReuseReaderOrder", "List Nat", "[]", "unknown: reusableConn.readLoop is no longer a single endless loop")
+			}
+		}
 		if fd := ex.fn(rrel, "reusableConn", "closeWithErr"); fd != nil {
 			var top []string
 			for _, s := range fd.Body.List {
@@ -169,6 +208,24 @@ func init() {
 		}
 		if fd := ex.fn(prel, "PipelineTransport", "getReservedExchanger"); fd != nil {
 			ss := stmtStrings(ex, fd.Body)
+			// is the closed flag tested inside the critical section that registers a new connection?
+			iLock, iCheck, iInsert, iUnlock := -1, -1, -1, -1
+			for i, st := range fd.Body.List {
+				str := ex.str(st)
+				ifs, isIf := st.(*ast.IfStmt)
+				switch {
+				case str == "t.m.Lock()" && iLock < 0:
+					iLock = i
+				case str == "t.m.Unlock()" && iUnlock < 0:
+					iUnlock = i
+				case isIf && strings.Contains(ex.str(ifs.Cond), "closed") && iCheck < 0:
+					iCheck = i
+				case strings.Contains(str, "t.conns[c] = struct{}{}") && iInsert < 0:
+					iInsert = i
+				}
+			}
+			ex.setBool("c07PipelineClosedCheckedUnderLock", iLock < iCheck && iCheck < iInsert && iInsert < iUnlock, iLock >= 0 && iCheck >= 0 && iInsert >= 0 && iUnlock >= 0,
+				"getReservedExchanger: the closed flag is tested after t.m.Lock() and the new connection is registered before the t.m.Unlock() that follows (one critical section)")
 			ex.setBool("c07PipelineClosedRejects", contains(ss, "if t.closed { err = ErrClosedTransport t.m.Unlock() return }"), true, "getReservedExchanger fails at once on a closed transport")
 		}
 	})
